@@ -14,7 +14,7 @@
    same Gallina term; only its arithmetic on Q is trusted. *)
 
 From mathcomp Require Import all_ssreflect all_algebra.
-From PV Require Import Spectrum.CharPolyExec.
+From PV Require Import Spectrum.CharPoly Spectrum.CharPolyExec.
 Set Implicit Arguments.
 Unset Strict Implicit.
 Unset Printing Implicit Defensive.
@@ -147,6 +147,96 @@ congr (\det _); apply/matrixP => i j; rewrite !mxE /=.
 by rewrite (nth_map [::]) ?sz // nth_remove_nth.
 Qed.
 
+(* ---- matrix product and identity ---- *)
+
+Definition ent (l : list A) (j : nat) : R := phi (nth (o0 K) l j).
+
+Lemma ent_nil j : ent [::] j = 0.
+Proof. by rewrite /ent nth_nil (h_0 H). Qed.
+
+Lemma ent_padd a b j : ent (padd K a b) j = ent a j + ent b j.
+Proof.
+elim: a b j => [|x a IH] [|y b] j; rewrite /= ?ent_nil ?add0r ?addr0 //.
+by case: j => [|j]; [exact: (h_add H) | exact: IH].
+Qed.
+
+Lemma ent_scale c r j : ent (List.map (omul K c) r) j = phi c * ent r j.
+Proof.
+elim: r j => [|y r IH] [|j]; rewrite /= ?ent_nil ?mulr0 //; first exact: (h_mul H).
+exact: IH.
+Qed.
+
+Lemma ent_zero (T : Type) (l : list T) j : ent (List.map (fun _ => o0 K) l) j = 0.
+Proof.
+elim: l j => [|y l IH] [|j]; rewrite /= ?ent_nil //; first exact: (h_0 H).
+exact: IH.
+Qed.
+
+Lemma ent_lincomb cs rows zero j : ent zero j = 0 ->
+  ent (lincomb K cs rows zero) j
+  = \sum_(t < size cs) phi (nth (o0 K) cs t) * ent (nth [::] rows t) j.
+Proof.
+move=> hz; elim: cs rows => [|c cs IH] [|r rows] /=.
+- by rewrite big_ord0.
+- by rewrite big_ord0.
+- by rewrite hz big1 // => t _; rewrite nth_nil ent_nil mulr0.
+- by rewrite /vadd ent_padd ent_scale big_ord_recl /= IH.
+Qed.
+
+Lemma size_padd a b : size (padd K a b) = maxn (size a) (size b).
+Proof.
+by elim: a b => [|x a IH] [|y b] //=; rewrite ?IH ?maxnSS ?max0n ?maxn0.
+Qed.
+
+Lemma size_lincomb cs rows zero p : size zero = p ->
+  all (fun r => size r == p) rows -> size (lincomb K cs rows zero) = p.
+Proof.
+move=> hz; elim: cs rows => [|c cs IH] [|r rows] //= /andP[/eqP sr hall].
+by rewrite /vadd size_padd Lmap size_map sr IH // maxnn.
+Qed.
+
+Lemma size_hd n P : wf n P -> size (List.hd [::] P) = n.
+Proof. by case: P => [|r P] /andP[/eqP <- //=] /andP[/eqP]. Qed.
+
+Lemma wf_mmul n M P : wf n M -> wf n P -> wf n (mmul K M P).
+Proof.
+move=> /andP[sM hM] wP; have [_ hP] := andP wP.
+rewrite /wf /mmul Lmap size_map sM /= all_map; apply/(all_nthP [::]) => i _ /=.
+by rewrite (@size_lincomb _ _ _ n) // Lmap size_map (size_hd wP).
+Qed.
+
+Lemma mxl_mmul n M P : wf n M -> mxl n (mmul K M P) = mxl n M *m mxl n P.
+Proof.
+move=> /andP[/eqP sM hM]; apply/matrixP => i j; rewrite !mxE.
+have iM : (i < size M)%N by rewrite sM.
+have /eqP sr := (all_nthP [::] hM) i iM.
+rewrite /mmul Lmap (nth_map [::]) // -/(ent _ _) ent_lincomb ?ent_zero // sr.
+by apply: eq_bigr => t _; rewrite !mxE.
+Qed.
+
+Lemma Lseq a n : List.seq a n = iota a n.
+Proof. by elim: n a => //= n IH a; rewrite IH. Qed.
+
+Lemma ent_unit_row oi n j : (j < n)%N -> ent (unit_row K oi n) j = (oi == Some j)%:R.
+Proof.
+elim: n oi j => [|n IH] oi j //.
+case: oi => [[|i]|]; case: j => [|j] //=; rewrite ?ltnS /ent /= ?(h_0 H) ?(h_1 H) //;
+  by move/IH; rewrite /ent => ->.
+Qed.
+
+Lemma mxl_ident n : mxl n (ident K n) = 1%:M.
+Proof.
+apply/matrixP => i j; rewrite !mxE /ident Lmap Lseq (nth_map 0%N) ?size_iota //.
+by rewrite nth_iota // add0n -/(ent _ _) ent_unit_row.
+Qed.
+
+Lemma wf_ident n : wf n (ident K n).
+Proof.
+rewrite /wf /ident Lmap Lseq size_map size_iota eqxx /= all_map.
+apply/(all_nthP 0%N) => i _ /=; move: (Some _) => oi.
+by elim: n oi => [|n IH] [[|k]|] //=; rewrite eqSS.
+Qed.
+
 (* ---- characteristic polynomial ---- *)
 
 Lemma nth_cp_row (oi : option nat) (r : list A) j : (j < size r)%N ->
@@ -222,3 +312,80 @@ Proof.
 move=> wfM; have := det_hom (poly_ops_hom (ROps_hom F)) wfM; rewrite /phiP map_id => ->.
 by congr (\det _); apply/matrixP => i j; rewrite !mxE /= map_id.
 Qed.
+
+(* ---- the premise checks of the tie imply the premises of C04_charpoly_trunc ---- *)
+
+Lemma Lfirstn (T : Type) n (l : list T) : List.firstn n l = take n l.
+Proof. by elim: n l => [|n IH] [|x l] //=; rewrite IH. Qed.
+
+Lemma forall2b_nth (X : Type) (f : X -> X -> bool) x0 a b :
+  forall2b f a b = true ->
+  size a = size b /\ forall i, (i < size a)%N -> f (nth x0 a i) (nth x0 b i) = true.
+Proof.
+elim: a b => [|x a IH] [|y b] //= /andP[fxy /IH [sz h]].
+by split; [rewrite sz | case].
+Qed.
+
+Section ChecksSound.
+Variable F : comRingType.
+Let K1 := ROps F.
+Let KP := poly_ops K1.
+Let phi2 : list F -> {poly F} := phiP (@id F).
+Let H2 : ops_hom KP phi2 := poly_ops_hom (ROps_hom F).
+
+(* a list of rows of coefficient lists, read as a matrix of polynomials *)
+Definition MX n (M : list (list (list F))) : 'M[{poly F}]_n :=
+  \matrix_(i < n, j < n) Poly (nth [::] (nth [::] M i) j).
+
+Lemma phi2E l : phi2 l = Poly l.
+Proof. by rewrite /phi2 /phiP map_id. Qed.
+
+Lemma MX_mxl n M : MX n M = mxl KP phi2 n M.
+Proof. by apply/matrixP => i j; rewrite !mxE phi2E. Qed.
+
+Lemma eqN_b_sound N p q : g_eqN_b K1 N p q = true -> eqN N (Poly p) (Poly q).
+Proof.
+rewrite /g_eqN_b /g_trunc !Lfirstn => /(phiP_eqb (ROps_hom F)).
+rewrite -/phi2 !phi2E => e i iN.
+have := congr1 (fun r : {poly F} => r`_i) e.
+by rewrite !coef_Poly !nth_take.
+Qed.
+
+Lemma mx_eqN_b_sound N n M P : wf n M ->
+  g_mx_eqN_b K1 N M P = true -> forall i j : 'I_n, eqN N (MX n M i j) (MX n P i j).
+Proof.
+move=> /andP[/eqP sM hM] h i j; rewrite !mxE.
+have [_ hrows] := forall2b_nth [::] h.
+have iM : (i < size M)%N by rewrite sM.
+have [_ hent] := forall2b_nth [::] (hrows i iM).
+apply: eqN_b_sound; apply: hent.
+by have /eqP -> := (all_nthP [::] hM) i iM.
+Qed.
+
+Theorem exec_premises_sound N n U Ui H Ht :
+  wf n U -> wf n Ui -> wf n H ->
+  g_prem_unitary K1 N n U Ui = true ->
+  g_prem_similar K1 N U Ui H Ht = true ->
+  (forall i j, eqN N ((MX n Ui *m MX n U) i j) ((1%:M : 'M_n) i j))
+  /\ (forall i j, eqN N ((MX n Ui *m MX n H *m MX n U) i j) (MX n Ht i j)).
+Proof.
+move=> wU wUi wH h1 h2; split=> i j.
+- have := mx_eqN_b_sound (wf_mmul KP wUi wU) h1 i j.
+  by rewrite !MX_mxl (mxl_mmul H2) // (mxl_ident H2).
+- have := mx_eqN_b_sound (wf_mmul KP (wf_mmul KP wUi wH) wU) h2 i j.
+  by rewrite !MX_mxl !(mxl_mmul H2) // (wf_mmul KP).
+Qed.
+
+(* hence, by C04_charpoly_trunc, the conclusion for the matrices denoted by the lists *)
+Corollary exec_sound N n U Ui H Ht :
+  wf n U -> wf n Ui -> wf n H ->
+  g_prem_unitary K1 N n U Ui = true ->
+  g_prem_similar K1 N U Ui H Ht = true ->
+  forall k, eqN N (char_poly (MX n Ht))`_k (char_poly (MX n H))`_k.
+Proof.
+move=> wU wUi wH h1 h2.
+have [p1 p2] := exec_premises_sound wU wUi wH h1 h2.
+exact: (charpoly_trunc p1 p2).
+Qed.
+
+End ChecksSound.
